@@ -126,3 +126,49 @@ def resolution_rule(pid):
                 ctx.holds(rel, "name-resolution", examined=max(examined, 1))
 
     return Rule("%s-A2" % pid, rule, 1, "name resolution of the analysed code unchanged: no new override of an inherited method, no new module-level name shadowing a used builtin")
+
+
+# Small helpers one call away from the anchored functions that no rule of the property states anything about.  A change of behaviour in one of them
+# changes what the analysed callers compute (round 5 of the seeded changes found four such cases).  They are guarded as a whole: the helper must be
+# identical to, or provably equivalent with (sa/nf.py), its version in the reference tree.  One line of reason per entry.
+GUARDED_HELPERS = {
+    "C03": [("chempy/chemistry.py", "Reaction._init_stoich", "turns the reac/prod containers of every Reaction into its stoichiometry dicts")],
+    "C08": [("chempy/equilibria.py", "EqSystem.phase_transfer_reaction_idxs", "selects the reactions that get precipitation switching conditions")],
+    "C09": [("chempy/units.py", "is_quantity", "decides whether a value is treated as carrying units at all")],
+    "C10": [("chempy/units.py", "is_quantity", "decides whether a rate constant is de-dimensionalised")],
+    "C11": [("chempy/_util.py", "intdiv", "integer division used for the cancellation coefficient")],
+    "C12": [("chempy/chemistry.py", "Reaction._init_stoich", "a set of species means coefficient 1 each; dict coefficients are kept as given"),
+            ("chempy/util/parsing.py", "get_parsing_context", "names available to the `eval` of the parameter part of a reaction string")],
+    "C13": [("chempy/util/parsing.py", "_subs", "applies the prefix / infix substitution tables to the rendered name")],
+    "C16": [("chempy/util/_expr.py", "_implicit_conversion", "converts the other operand of every Expr operator"),
+            ("chempy/kinetics/rates.py", "_pure_number", "reduces a dimensionless quantity before math functions read its magnitude")],
+    "C20": [("chempy/units.py", "is_quantity", "decides whether a parameter is printed with a unit"),
+            ("chempy/printing/string.py", "str_", "the printer entry point used for every rendered fragment")],
+}
+
+
+def guarded_helpers_rule(pid):
+    table = GUARDED_HELPERS.get(pid, [])
+
+    def rule(ctx):
+        """Each guarded helper is textually identical to its reference version or proven equivalent to it (normal forms, sa/nf.py); a helper that no
+        longer exists is not reported (its callers changed then, and they are analysed)."""
+        import os
+        if os.environ.get("SA_NO_REFEQ"):
+            for rel, qual, why in table:
+                ctx.holds("%s:%s" % (rel, qual), "guarded-helper", note="reference equivalence disabled")
+            return
+        for rel, qual, why in table:
+            a = "%s:%s" % (rel, qual)
+            if not ctx.repo.has(rel):
+                ctx.holds(a, "guarded-helper", note="file absent")
+                continue
+            m = ctx.mod(rel)
+            st = (getattr(m, "equiv", None) or {}).get(qual)
+            if st in ("identical", "equivalent") or st is None:
+                ctx.holds(a, "guarded-helper", status=st or "absent")
+            else:
+                ctx.violation(a, "guarded-helper-changed", "`%s` (%s) is not provably equivalent to its reference version and no rule of this property speaks about its shape: "
+                              "review the change (status: %s)" % (qual, why, st))
+
+    return Rule("%s-A3" % pid, rule, len(table), "guarded helpers one call away from the anchors are (provably equivalent to) their reference versions")
